@@ -6,5 +6,6 @@ CONSTANTS
   LatchChecked = TRUE
   CloseLatches = FALSE
   TimeoutReleases = FALSE
+  HandlerControlPath = TRUE
 INVARIANTS TypeOK WholeFrames InOrder AfterClose
 CHECK_DEADLOCK FALSE
